@@ -94,8 +94,10 @@ def w_hist(hexes, pool, programs, src):
                 w = {"history": " ".join(prog)}
                 if live != 0:
                     part["viol"].append(("idnkit/context-leak/live=%d" % live, w, {"creates": creates, "destroys": destroys}))
-                if bad:
-                    part["viol"].append(("idnkit/context-used-after-destroy", w, {"count": bad}))
+                if bad >= 1000000:
+                    part["viol"].append(("idnkit/encode-with-undefined-actions", w, {"count": bad // 1000000}))
+                if bad % 1000000:
+                    part["viol"].append(("idnkit/context-used-after-destroy", w, {"count": bad % 1000000}))
                 if dbl:
                     part["viol"].append(("idnkit/context-destroyed-twice", w, {"count": dbl}))
         # decisions along the history must agree between the back ends
@@ -122,6 +124,13 @@ def w_hist(hexes, pool, programs, src):
     part["distinct"] = len(programs)
     if programs:
         part["samples"].append({"source": src, "history": " ".join(programs[len(programs) // 2][:30])})
+    return part
+
+
+def _memcheck_backend(b, exe, pool, programs):
+    part = c13.w_memcheck_hist(exe, pool, programs)
+    part["viol"] = [("%s/%s" % (b, v[0]),) + tuple(v[1:]) for v in part["viol"]]
+    part["counters"] = {("%s.%s" % (b, k)): v for k, v in part["counters"].items()}
     return part
 
 
@@ -173,6 +182,17 @@ def main(tier, seed):
             p = ["r%d" % r.randrange(4), "s"] + [r.choice(ops) for _ in range(r.choice([5, 20, 60, 200]))]
             ps.append(p)
         jobs.append((w_hist, (hexes, HM.POOL7, ps, "random")))
+    # definedness (memcheck) for the foreign back ends on an uninstrumented build: eav_t lives in uninitialised heap memory
+    r2 = random.Random(seed * 53)
+    ops = HM.alphabet(mdl, len(HM.POOL7))
+    mprogs = [["r%d" % r2.randrange(4), "s"] + [r2.choice(ops) for _ in range(r2.choice([6, 15, 40]))] for _ in range(60 if tier == "quick" else 600)]
+    for b in ("idn", "idnkit"):
+        kw = dict(backend=b, extra_inc=(SHIM,), extra_objs_srcs=adapter, san="plain-O0")
+        if b == "idnkit":
+            kw["driver_defs"] = ("VERIF_IDN_ADAPTER",)
+        pexe = cx.exe("plain-O0-hist-%s" % b, driver=("drv/hist.c",), **kw)
+        for i in range(0, len(mprogs), 60):
+            jobs.append((_memcheck_backend, (b, pexe, HM.POOL7, mprogs[i:i + 60])))
     for part in core.pmap(_run, jobs):
         # ctx.* counters are maxima, not sums
         mx = {k: part["counters"].pop(k) for k in list(part["counters"]) if k.startswith("ctx.")}
